@@ -477,6 +477,40 @@ def replay_lexer_totality():
     return {'reproduced': bool(obs), 'how': 'hidc.lexer.lex on witness texts', 'observed': obs or 'all witness texts give LexerError or tokens'}
 
 
+def ob_source_lines():
+    """SourceCode: a line ends at a line feed and nowhere else (form feeds, NEL, U+2028 ... are ordinary characters of comments and strings);
+    enum over all strings up to length 4 over an alphabet containing every character Python's str.splitlines() would split at"""
+    lx, readers, scanner, tokens, LE = M()
+    import tempfile, os
+    t0 = time.time(); bad = []; n = 0
+    alpha = ['a', '"', '/', '\n', '\r', '\x0b', '\x0c', '\x1c', '\x1d', '\x1e', '\x85', ' ', ' ']
+    for L_ in range(0, 5):
+        for tup in itertools.product(alpha, repeat=L_):
+            s = ''.join(tup); n += 1
+            got = list(scanner.SourceCode.from_string(s).lines)
+            if got != s.split('\n'):
+                bad.append({'text': repr(s), 'lines': repr(got), 'documented': repr(s.split('\n'))})
+                break
+        if bad: break
+    # from_file: text mode = universal newlines (\r\n and \r are line feeds), a final line feed does not start another line
+    fd, path = tempfile.mkstemp(suffix='.hid')
+    os.close(fd)
+    try:
+        for tup in itertools.product(alpha, repeat=3):
+            s = 'x' + ''.join(tup); n += 1
+            with open(path, 'w', encoding='utf-8', newline='') as f: f.write(s)
+            got = list(scanner.SourceCode.from_file(path).lines)
+            u = s.replace('\r\n', '\n').replace('\r', '\n')
+            want = u.split('\n')
+            if u.endswith('\n'): want = want[:-1]
+            if got != want:
+                bad.append({'file_text': repr(s), 'lines': repr(got), 'documented': repr(want)}); break
+    finally:
+        os.unlink(path)
+    return [res('C12/source/lines-end-at-line-feeds-only', bad, t0, 'SourceCode.from_string(s).lines == s.split("\\n"); from_file splits at line feeds (universal newlines) only',
+                ['hidc.lexer.scanner.SourceCode.from_string', 'hidc.lexer.scanner.SourceCode.from_file'], domain=n)]
+
+
 def ob_layout_bounded():
     """BOUNDED-IN: layout independence -- token sequences rendered with different separators lex to the same tokens (bounded stand-in)"""
     import random
@@ -516,4 +550,5 @@ def tasks(tier):
             task(MOD, 'ob_read_int', ('C12',), label='py/lexer/read_int'),
             task(MOD, 'ob_scanner', ('C12',), label='py/lexer/scanner', cost=4),
             task(MOD, 'ob_readers_raise_only_lexer_errors', ('C10',), label='py/lexer/totality', cost=4),
+            task(MOD, 'ob_source_lines', ('C12',), label='py/lexer/source-lines', cost=3),
             task(MOD, 'ob_layout_bounded', ('C12',), label='py/lexer/layout-bounded', cost=3)]
